@@ -19,7 +19,12 @@ Definition resize (v : Z) (l : list Z) : list Z :=
   else if v <? zlen l then firstn (Z.to_nat v) l
   else l.
 
-Definition set_init (s : bstore) (v : Z) : bstore := {| bsize := bsize s; bbytes := resize v (bbytes s) |}.
+(* ... and, as ByteInterval::setInitializedSize of the C++ API, the interval grows with its initialized bytes *)
+Definition set_init (s : bstore) (v : Z) : bstore :=
+  {| bsize := if bsize s <? v then v else bsize s; bbytes := resize v (bbytes s) |}.
+
+(* `contents` is a plain attribute: direct assignment stores the bytes as they are (no check) *)
+Definition set_contents (s : bstore) (bs : list Z) : bstore := {| bsize := bsize s; bbytes := bs |}.
 
 (* the size setter: shrinking below the stored byte count truncates the stored bytes *)
 Definition set_size (s : bstore) (v : Z) : bstore :=
@@ -59,14 +64,16 @@ Definition contains_address (addr : option Z) (off size a : Z) : bool :=
   match addr with Some base => contains_offset off size (a - base) | None => false end.
 
 (* ---------- histories ---------- *)
-Inductive bop := BSetSize (v : Z) | BSetInit (v : Z) | BPoke (i b : Z).
+Inductive bop := BSetSize (v : Z) | BSetInit (v : Z) | BPoke (i b : Z) | BSetContents (bs : list Z).
 
-(* the domain of the property: non-negative sizes; initialized_size assignments within the declared size *)
+(* the domain of the property: non-negative sizes and byte counts (any value, also beyond the current size);
+   direct assignment of `contents` is inside it only when the new bytes fit the declared size *)
 Definition bop_ok (s : bstore) (o : bop) : bool :=
   match o with
   | BSetSize v => 0 <=? v
-  | BSetInit v => (0 <=? v) && (v <=? bsize s)
+  | BSetInit v => 0 <=? v
   | BPoke _ b => (0 <=? b) && (b <? 256)
+  | BSetContents bs => zlen bs <=? bsize s
   end.
 
 Definition bstep (s : bstore) (o : bop) : bstore :=
@@ -74,6 +81,7 @@ Definition bstep (s : bstore) (o : bop) : bstore :=
   | BSetSize v => set_size s v
   | BSetInit v => set_init s v
   | BPoke i b => match poke s i b with Ok s' => s' | Err _ => s end
+  | BSetContents bs => set_contents s bs
   end.
 
 Fixpoint brun (s : bstore) (ops : list bop) : bstore :=
